@@ -9,6 +9,7 @@ import (
 	"regexp"
 	"strings"
 	"testing"
+	"time"
 
 	goerrors "github.com/ajitpratap0/GoSQLX/pkg/errors"
 	"github.com/ajitpratap0/GoSQLX/pkg/gosqlx"
@@ -65,7 +66,8 @@ func chainHasCode(err error, code goerrors.ErrorCode) bool {
 
 var entries = []string{"gosqlx.Parse", "gosqlx.Validate", "gosqlx.ParseWithContext", "gosqlx.ParseMultiple", "gosqlx.ValidateMultiple",
 	"gosqlx.ParseWithRecovery", "gosqlx.Format", "parser.ParseBytes", "parser.Validate", "parser.ParseWithDialect", "Parser.Parse", "Parser.ParseContext",
-	"Parser.ParseWithPositions", "Tokenizer.Tokenize", "pooled.Parser.Parse"}
+	"Parser.ParseWithPositions", "Tokenizer.Tokenize", "pooled.Parser.Parse", "parser.ValidateBytes", "parser.ValidateWithDialect", "parser.ValidateBytesWithDialect",
+	"parser.ParseBytesWithDialect", "parser.ParseBytesWithTokens", "gosqlx.ParseBytes", "gosqlx.ParseWithTimeout", "Tokenizer.TokenizeContext"}
 
 // call returns the errors the entry point reports for sql.
 func call(entry, sql string) []error {
@@ -128,6 +130,28 @@ func call(entry, sql string) []error {
 	case "parser.ParseWithDialect":
 		_, err := parser.ParseWithDialect(sql, keywords.DialectPostgreSQL)
 		return one(err)
+	case "parser.ValidateBytes":
+		return one(parser.ValidateBytes([]byte(sql)))
+	case "parser.ValidateWithDialect":
+		return one(parser.ValidateWithDialect(sql, keywords.DialectPostgreSQL))
+	case "parser.ValidateBytesWithDialect":
+		return one(parser.ValidateBytesWithDialect([]byte(sql), keywords.DialectMySQL))
+	case "parser.ParseBytesWithDialect":
+		_, err := parser.ParseBytesWithDialect([]byte(sql), keywords.DialectPostgreSQL)
+		return one(err)
+	case "parser.ParseBytesWithTokens":
+		_, _, err := parser.ParseBytesWithTokens([]byte(sql))
+		return one(err)
+	case "gosqlx.ParseBytes":
+		_, err := gosqlx.ParseBytes([]byte(sql))
+		return one(err)
+	case "gosqlx.ParseWithTimeout":
+		_, err := gosqlx.ParseWithTimeout(sql, time.Hour)
+		return one(err)
+	case "Tokenizer.TokenizeContext":
+		tkz, _ := tokenizer.New()
+		_, err := tkz.TokenizeContext(context.Background(), []byte(sql))
+		return one(err)
 	case "Parser.Parse":
 		return low("plain", false)
 	case "Parser.ParseContext":
@@ -143,6 +167,9 @@ func call(entry, sql string) []error {
 	}
 	panic("unknown entry " + entry)
 }
+
+// entry points that tokenize under a dialect other than the default may classify a lexeme differently
+var dialectEntry = map[string]bool{"parser.ParseWithDialect": true, "parser.ValidateWithDialect": true, "parser.ValidateBytesWithDialect": true, "parser.ParseBytesWithDialect": true}
 
 type sig struct {
 	code, msg string
@@ -185,6 +212,12 @@ func oracleErr(c ErrCase) error {
 		return fmt.Errorf("[%s] %v", c.Entry, err)
 	}
 	lines := strings.Split(c.SQL, "\n")
+	var lexSig *sig
+	if lexErr != nil {
+		if l, e := sigs([]error{lexErr}); e == nil {
+			lexSig = &l[0]
+		}
+	}
 	for i, s := range ss {
 		if !documented[s.code] {
 			return fmt.Errorf("[%s] error code %q is not a documented code", c.Entry, s.code)
@@ -197,6 +230,11 @@ func oracleErr(c ErrCase) error {
 		}
 		if lexErr == nil && strings.HasPrefix(s.code, "E1") {
 			return fmt.Errorf("[%s] input tokenizes, yet the error carries tokenizer code %s: %s", c.Entry, s.code, s.msg)
+		}
+		// a lexical failure is found by the same tokenizer on the same bytes whichever entry point runs it:
+		// code, message and location are those the tokenizer itself reports for this input
+		if lexSig != nil && i == 0 && !dialectEntry[c.Entry] && (s.code != lexSig.code || s.line != lexSig.line || s.col != lexSig.col) {
+			return fmt.Errorf("[%s] lexical error reported as %s at %d:%d, the tokenizer reports %s at %d:%d for the same input", c.Entry, s.code, s.line, s.col, lexSig.code, lexSig.line, lexSig.col)
 		}
 		if s.line >= 1 && s.col >= 1 {
 			if s.line > len(lines) || s.col > 4*len(lines[s.line-1])+1 {
@@ -416,6 +454,11 @@ func TestErrorIndependentOfEarlierStatements(t *testing.T) {
 // genStructuredErrors is the case generator of errCheck (shared by the rapid run and the native fuzz target).
 func genStructuredErrors(rt *rapid.T) ErrCase {
 	s, cl := genRejected(rt)
+	if lead := rapid.SampledFrom([]string{"", "", "", "\n", "\n\n\n  ", "\r\n\t", " \n", "-- c\n\n", "\t\t"}).Draw(rt, "lead"); lead != "" {
+		// blank lines, indentation or a comment line in front: locations count from the start of the text given
+		s = lead + s
+		cl = append(cl, "leading_layout")
+	}
 	e := rapid.SampledFrom(entries).Draw(rt, "entry")
 	nt := false
 	for _, c := range cl {
